@@ -221,8 +221,8 @@ class GroupEpoched:
 
     def bound(self, tier):
         return ('2-D arrays (1..%d epochs of 400..800 samples, corpus signals) with axis=None: single option set vs flattened '
-                'analysis + epoch_df; per-epoch option lists re-labelled with their own thresholds, incl. lists whose entries are one and '
-                'the same dict object' % (4 if tier == 'quick' else 6))
+                'analysis + epoch_df; per-epoch option lists re-labelled with their own thresholds, incl. lists whose entries are one and the same dict object; Fortran-ordered / transposed-view inputs '
+                '' % (4 if tier == 'quick' else 6))
 
     def gen(self, tier, seed):
         for rows in range(1, (4 if tier == 'quick' else 6) + 1):
@@ -230,6 +230,9 @@ class GroupEpoched:
                 for kwk in ('shared', 'list', 'aliased-loose', 'aliased-strict'):
                     for centre in ('peak', 'trough'):
                         yield dict(rows=rows, L=L, kw=kwk, centre=centre, seed=seed)
+                        if rows >= 2 and kwk in ('shared', 'list') and L >= 400:
+                            # the same values in another memory layout: the epochs are the ROWS whatever the strides
+                            yield dict(rows=rows, L=L, kw=kwk, centre=centre, seed=seed, layout='F' if centre == 'peak' else 'T')
 
     def nontrivial(self, c):
         return c['rows'] >= 2
@@ -243,6 +246,10 @@ class GroupEpoched:
         c = dict(c, rows=nrows)
         flat = make_signal(FAMILIES[(c['seed'] + c['rows'] + c['L'] // 400) % len(FAMILIES)], c['seed'] + c['rows'], n=c['rows'] * c['L'])
         sigs = flat.reshape(c['rows'], c['L'])
+        if c.get('layout') == 'F':
+            sigs = np.asfortranarray(sigs)
+        elif c.get('layout') == 'T':
+            sigs = np.ascontiguousarray(sigs.T).T                # a transposed view of a (samples, epochs) recording
         base = dict(center_extrema=c['centre'], threshold_kwargs=dict(TH_PRESETS['loose']),
                     find_extrema_kwargs=dict(filter_kwargs=dict(n_cycles=3)))
         if c['kw'] == 'shared':
